@@ -1126,6 +1126,18 @@ func (e *Evaluator) GetRootJson() (string, error) {
 }
 
 func EvalExpression(exprSrc string, rootValue interface{}, stdout io.Writer) (*Cell, error) {
+	cell, err := evalSelector(exprSrc, rootValue, stdout)
+	if err == errExit || err == errNext {
+		// control flow left the expression before it produced a value
+		return NewCell(NewValue(nil)), nil
+	}
+	return cell, err
+}
+
+// evalSelector evaluates a root selector. exit and next executed inside it
+// (in a match block body) are returned as errExit / errNext for the caller to
+// act on.
+func evalSelector(exprSrc string, rootValue interface{}, stdout io.Writer) (*Cell, error) {
 	lex := NewLexer(exprSrc)
 	parser := NewParser(&lex)
 	expr, err := parser.ParseExpression()
@@ -1137,7 +1149,7 @@ func EvalExpression(exprSrc string, rootValue interface{}, stdout io.Writer) (*C
 	ev.root = rootCell
 	ev.ruleRoot = rootCell
 	cell, err := ev.evalExpr(expr)
-	if err != nil && err != errExit {
+	if err != nil {
 		return nil, err
 	}
 	return cell, nil
@@ -1189,7 +1201,14 @@ func EvalProgram(progSrc string, files []InputFile, rootSelectors []string, stdo
 			rootCells := make([]*Cell, 0)
 			if len(rootSelectors) > 0 {
 				for _, rootSelector := range rootSelectors {
-					cell, err := EvalExpression(rootSelector, rootValue, stdout)
+					cell, err := evalSelector(rootSelector, rootValue, stdout)
+					if err == errExit {
+						return &ev, nil
+					}
+					if err == errNext {
+						// skip this selector's root
+						continue
+					}
 					if err != nil {
 						return &ev, err
 					}
